@@ -163,6 +163,97 @@ def exact_data_pairs(root, c, lib_pairs):
 
 
 
+
+# ---------- C07 independence, the statement of C07_locality / C07_independent_of_closed_region ----------
+def op_arg_ids(op):
+    """the object identifiers an editing op names (mirror of Proofs/LocalityStep.v op_in: an outer pin
+    (n, i) counts through its instance n); None for ops outside the editing alphabet"""
+    def pin(tok):
+        if tok[:1] == 'O':
+            return [tok[1:].split('.')[0]]
+        if tok[:1] == 'I':
+            return [tok[1:]]
+        return []
+    o = op[0]
+    try:
+        if o in ('new', 'policy'):
+            ids = []
+        elif o == 'create':
+            ids = [op[2], op[-1]]
+        elif o == 'items':
+            ids = [op[2]]
+        elif o in ('add', 'remove'):
+            ids = [op[2], op[3]]
+        elif o in ('removefrom', 'reorder'):
+            ids = [op[2]] + list(op[4:4 + int(op[3])])
+        elif o == 'reorderwire':
+            ids = [op[1]] + [x for tk in op[3:3 + int(op[2])] for x in pin(tk)]
+        elif o in ('connect', 'disconnect'):
+            ids = [op[1]] + pin(op[2])
+        elif o == 'disconnectfrom':
+            ids = [op[1]] + [x for tk in op[3:3 + int(op[2])] for x in pin(tk)]
+        elif o == 'setref':
+            ids = [op[1], op[2]]
+        elif o == 'settop':
+            ids = [op[1]] + ([] if op[2] == 'N' else [op[2][1:]])
+        elif o in ('setname', 'delname', 'dset', 'ddel', 'dpop', 'downto', 'scalar', 'lower', 'direction'):
+            ids = [op[1]]
+        else:
+            return None
+    except (IndexError, ValueError):
+        return None
+    out = []
+    for x in ids:
+        if x in ('~', '?', ''):
+            continue
+        if not x.isdigit():
+            return None
+        out.append(int(x))
+    return out
+
+
+INDEP_STATS = collections.Counter()
+
+
+def region_independence(w, rng, n0, n1, side, with_refs, steps=25):
+    """After a completed clone (objects [n0, n1) are the copy): a random history of editing calls whose
+    argument objects all lie in one region - the copy together with everything created afterwards, or the
+    original together with everything created afterwards - accepted or refused; every field of every
+    object of the other region (full dump; reference sets only when with_refs) must be unchanged."""
+    in_region = (lambda i: i >= n0) if side == 'copy' else (lambda i: i < n0 or i >= n1)
+    others = [i for i in range(n1) if not in_region(i)]
+
+    def dump(i):
+        d = w.dump_obj(i)
+        return d if with_refs else '; '.join(x for x in d.split('; ') if not x.startswith('refs='))
+    snap = [dump(i) for i in others]
+
+    class RGen(Gen):
+        def ids(self, kind, pred=None):
+            return [i for i in Gen.ids(self, kind, pred) if in_region(i)]
+    g = RGen(rng, w, 'structure')
+    done = []
+    for _ in range(steps * 4):
+        if len(done) >= steps:
+            break
+        op = g.next_op()
+        ids = op_arg_ids(op)
+        if ids is None or op[0] == 'policy' or not all(in_region(i) and i < len(w.objs) for i in ids):
+            INDEP_STATS['skipped'] += 1
+            continue
+        out = w.apply(op)
+        done.append(op)
+        INDEP_STATS['ops'] += 1
+        INDEP_STATS['op:' + op[0]] += 1
+        INDEP_STATS['accepted' if out == 'ok' else 'refused'] += 1
+        now = [dump(i) for i in others]
+        if now != snap:
+            k = next(j for j in range(len(snap)) if now[j] != snap[j])
+            return ['independence: %s on the %s (%s) changed object #%d of the other side: %s -> %s; history %s'
+                    % (' '.join(op), side, out, others[k], snap[k], now[k], ' / '.join(' '.join(x) for x in done))]
+    INDEP_STATS['histories:' + side] += 1
+    return []
+
 # ---------- C07 oracle ----------
 def c07_oracle(w, rng, root_idx, n0, snap0):
     """w: world after `clone root_idx`; n0 = number of objects before; snap0 = dump lines before"""
@@ -234,6 +325,7 @@ def c07_oracle(w, rng, root_idx, n0, snap0):
         bad += nested_data_independence(root, rng)
         if bad:
             return bad
+        n1 = len(w.objs)
         # independence: transform / edit one side, the other must not move
         side = rng.choice(['copy', 'orig'])
         victim, other = (c, root) if side == 'copy' else (root, c)
@@ -258,6 +350,16 @@ def c07_oracle(w, rng, root_idx, n0, snap0):
             bad.append('edits/transformations on the %s raised %s: %s' % (side, type(e).__name__, e))
         if canon_netlist(other) != before or [w.dump_obj(i) for i in ids_other] != snap_other:
             bad.append('editing the %s changed the other netlist' % side)
+        if not bad:
+            # independence as stated by C07_locality / C07_independent_of_closed_region: a random history of
+            # editing calls on one region (objects created by uniquify / flatten above belong to the side they
+            # were made on), full dumps of the other region compared after every call. Run last: random edits
+            # may make the hierarchy recursive, which the transformations above do not terminate on.
+            n2 = len(w.objs)
+            if side == 'copy':
+                bad += region_independence(w, rng, n0, n1, 'copy', True)
+            else:
+                bad += region_independence(w, rng, n0, n1, 'orig', True)
     else:
         new = w.objs[n0:]
         new_ids = set(id(o) for o in new)
@@ -1054,6 +1156,11 @@ def run(prop, tier, seed, replay):
         'evaluations': len(results), 'distinct_nontrivial': len(distinct),
         'rule': 'random hierarchical netlists from harness/netgen.py (depth 1-4, shared definitions, pass-through cells, bus ports, unconnected pins), then the transformation; every case has >= 20 ops so all are non-trivial; distinct by hash of the op history',
         'samples': [{'case': r['case'], 'kind': r['kind'], 'last_ops': [' '.join(o) for o in r['ops'][-3:]], 'objects': len(r['dumps'][-1].split(' | ')) - 3} for r in results[:3]],
+        'independence_region_histories': (dict(sorted(INDEP_STATS.items()), what='after a completed Netlist.clone (and the fixed rename/disconnect/uniquify/flatten '
+            'pattern on one side): a random history of up to 25 editing calls (generator of the ir engine, profile structure) whose argument objects all lie in ONE region - '
+            'the copy plus everything created on it afterwards, or the original plus everything created on it afterwards; an outer pin counts through its instance - '
+            'accepted or refused; after EVERY call the full dump (all fields incl. reference sets, data, namespace tables) of every object of the OTHER region is compared '
+            'with the dump before the history: the statement of Props/C07.v C07_locality / C07_independent_of_closed_region evaluated on the implementation') if prop == 'C07' else None),
         'case_kind_histogram': dict(kinds), 'objects_histogram': dict(sorted(sizes.items())),
         'empty_or_missing_name_histogram': dict(shapes),
         'model_impl_disagreements': n_dis, 'oracle_failures': n_or, 'known_finding_hits': n_known,
